@@ -37,7 +37,7 @@ CHECKS = [
         "engine": "vloop",
         "level": "model_checking",
         "technique": "stateless deviation-bounded exploration of all schedules (reply arrival vs timers, cancellation points, start orders) of concurrent callers on the real ECU client under a virtual-time event loop; monitor on the task-tagged transport log",
-        "text": "2-3 caller tasks (1-2 requests each, caller-unique identifiers), the real cyclic tester-present worker and a "
+        "text": "2-3 caller tasks (1-2 requests each, caller-unique identifiers; plus four- and five-caller sets with bound 1), the real cyclic tester-present worker and a "
         "reconnect caller share one real ECU object; for every scenario (reply scripts R/PR/-/C per caller, start orders, "
         "max_retry 0/1) every schedule with <= 2 deviations (3 in the thorough tier on two-caller scenarios) is executed: reply "
         "delivered while tasks are runnable, timer before a deliverable reply, both in one iteration, one cancel at any "
@@ -85,7 +85,7 @@ CHECKS = [
         "technique": "exhaustive crash-point enumeration (every byte offset of the peer's output x EOF/RST/silence) on the real transports and UDS client under a virtual-time event loop, with deviation-bounded timing exploration",
         "text": "For tcp-lines, unix-lines, DoIP and HSFZ the exchange connect(+activation); write; (ack); reply against a well-behaved peer is cut at every "
         "byte offset of the peer's output, by EOF, RST or silence, with and without a caller timeout (mode A: bare transport operations), under the "
-        "real UDSClient with max_retry 1/3 and a listener that accepts again after 0/0.05/0.35/2.5/11 s (mode B), and with double close / close after "
+        "real UDSClient with max_retry 1/3 and a listener that accepts again after 0/0.05/0.35/2.5/11 s (mode B; also with a peer that answers responsePending before the reply), and with double close / close after "
         "loss (mode C); each scenario with <= 1 (thorough 2) timing deviations. Checked: every pending operation ends with a timeout, a connection error "
         "or an empty read no later than caller timeout + ack time and never hangs (deadlock/horizon detection); no read returns data the peer did not "
         "completely send; with a retry left and a peer that accepts and answers in time the request returns the correct reply through a reconnect; "
@@ -151,7 +151,7 @@ CHECKS = [
         "further sessions (32768 graphs) x depth x skip sets x thorough x reset x refusal flavour (0x12 / 0x7E / 0x22). Each configuration is one complete "
         "run of the real scanner command (setup, 127 probes per stack, teardown) against the model ECU through the real tcp-lines transport. Checked: "
         "result == sessions reachable from 0x01 within depth through non-skipped probes (reference BFS), every reported 'via stack' path is a real path "
-        "of length <= depth, skipped sessions are never requested, the scan terminates on cyclic graphs, exit code 0 (or the documented abort with exit "
+        "of length <= depth (also as session_transition rows of a scan database in a sub-family of runs), skipped sessions are never requested, the scan terminates on cyclic graphs, exit code 0 (or the documented abort with exit "
         "code 1 when a reached session cannot return to the default session and --reset is off).",
         "note": "Trusted: model ECU, reference BFS, vloop; benign reply timing (timing faults are C04/C08). Paths are read from the RESULT log lines. "
         "Not covered: more than 4 sessions, hooks (--with-hooks), power cycling.",
@@ -194,7 +194,8 @@ CHECKS = [
         "text": "Histories: every request kind of the ISO table (first/middle/last response value set of the generator) x {genuine positive reply, negative reply, "
         "timeout, connection error, reply of another service, truncated reply}; all sequences of length <= 3 (quick) / 4 (thorough) over a 14-letter "
         "state-relevant alphabet (DSC ok/refused, SecurityAccess seed/key, ECUReset, F186 reads, plain read, suppressed TesterPresent, timeout, mismatch, "
-        "malformed, connection error, negative reply) with alternating ANALYZE tags; implicit-logging toggles; a failing run. Schedules: database "
+        "malformed, connection error, negative reply) with alternating ANALYZE tags; implicit-logging toggles; a failing run; messages of 4095/4096/5000 bytes; 32 full "
+        "UDSScanner lifecycles (flag on/off before setup x properties x ping x toggles in main). Schedules: database "
         "completions early/late (<= 1, thorough 2 deviations) and one cancellation of the run at every iteration boundary, then complete_run_meta + "
         "disconnect. Checked on the database file: one row per completed exchange while implicit logging is on, in transmission order, exact request "
         "and reply bytes (or NULL), exception column set iff the request raised and naming the class, request_time = transmission time <= response_time, "
@@ -222,11 +223,12 @@ CHECKS = [
         "engine": "vloop",
         "level": "model_checking",
         "technique": "exhaustive enumeration of request histories x recorded ECU models x database shapes: record with the real ECU client + DBHandler against a real RandomUDSServer, replay with the real DBUDSServer, compare reply by reply (record/replay differential under a virtual-time loop, sqlite behind a FIFO shim)",
-        "text": "For seeds 0..3 (thorough 0..15) of a RandomUDSServer with small session/service/identifier spaces, all histories of length <= 2 over a 17-letter "
+        "text": "For seeds 0..3 (thorough 0..15) of a RandomUDSServer with small session/service/identifier spaces, five state-establishing prefixes (other session, security unlocked) "
+        "followed by every suffix of length <= 2, and all histories of length <= 2 over a 17-letter "
         "alphabet and length 3 over 9 (thorough 12, length 4 over 8) letters - DSC to offered/unoffered sessions incl. suppressed, SecurityAccess seed / right "
         "key / wrong key (derived from the recorded seed), ECUReset, F186, reads/writes/routines, TesterPresent with and without suppress bit - are "
         "recorded through the real client and DBHandler and replayed from the default state by a real DBUDSServer on the produced file, for four "
-        "database shapes (one run; the history recorded twice; two ECUs selected by ECU name; two ECUs selected by properties). Checked: every reply "
+        "database shapes (one run; the history recorded twice; two ECUs selected by ECU name; by string properties; by falsy / null properties). Checked: every reply "
         "of the replay equals the recorded reply bytes, silence where none was recorded.",
         "note": "Trusted: sqlite3, FIFO model of aiosqlite, deterministic stand-in for the unseeded seed RNG. The ecu table link is written with plain SQL "
         "(gallia has no writer for it). Not covered: databases recorded from other ECU implementations, histories longer than the bound.",
